@@ -335,7 +335,7 @@ theorem lexHyp_of_inside {e : Expr} (hc : siteClass e = .docText) {v : List Char
   · intro hl
     unfold loneLine at hl
     rw [hc] at hl
-    cases hl
+    simp at hl
 
 /-- every recorded value of a docstring site is lexically neutral — no assumption on the text -/
 theorem lexHyp_of_docSite {o : Out} (hfe : Dcg.Proofs.TemplateSlots.FromEval o) :
